@@ -40,6 +40,19 @@ func main() {
 		}
 		return true
 	}
+	// first: a subscription cancelled while it leaves a delivered message unsettled, with a blocking Publish waiting for that ack
+	for _, pers := range []bool{false, true} {
+		for _, buf := range []int{0, 1} {
+			sc := gc.Scenario{Buf: buf, Persistent: pers, Blocking: true, Seed: rng.Next(), SecondClose: true, LateOps: true,
+				Subs: []gc.SubSpec{
+					{Topic: 0, Phase: 0, CancelAtRecv: 0, LeaveUnsettle: true, NestedTopic: -1},
+					{Topic: 0, Phase: 0, CancelAtRecv: -1, NestedTopic: -1, NackFirst: 1}},
+				Pubs: []gc.PubSpec{{Topic: 0, Calls: 2, Batch: 1}}}
+			if !emit(sc) {
+				return
+			}
+		}
+	}
 	cfgs := []struct{ p, b bool }{{false, false}, {true, false}, {false, true}}
 	if a.Thorough() {
 		cfgs = append(cfgs, struct{ p, b bool }{true, true})
